@@ -1,5 +1,7 @@
 """C07 — SURVEYOR/RESPONDENT: only responses to the current survey and only before its deadline;
-a response goes to the surveyor whose survey was received last.
+a response goes to the surveyor whose survey was received last.  Raw mode (xsurvey.c / xrespond.c): fan-out,
+routing by the first header word, header processing as C13 classifies it (cases from index RAW_BASE on, kinds
+`xsurveyor` / `xrespondent`, pipe ids renamed by `RawXf`).
 
 Survey ids are allocated by nni_id_alloc from a randomised start.  Every case re-seeds the random
 stream (`reseed 7`, additive harness op) right before its first survey, so the first id is the same
@@ -12,6 +14,7 @@ from .. import core, build, lean, sim
 
 PROP = "C07"
 MODULES = ["NngModel.Props.C07"]
+KINDS = ("surveyor", "respondent", "xsurveyor", "xrespondent")
 ADV = [7, 13, 31, 61, 127]
 IDMIN, IDRANGE = 0x80000000, 0x80000000
 RESEED = "reseed 7"
@@ -78,6 +81,68 @@ def start_of(ops, S):
         if l.startswith("send "):
             return S["nb"] if l.split()[-1] == "nb" else S["aio"]
     return S["aio"]
+
+
+class CookedXf:
+    """survey-id renaming for the cooked sockets (see module docstring)"""
+    def __init__(self, S):
+        self.S = S
+
+    def impl_ops(self, ops):
+        Sj = start_of(ops, self.S)
+        return [expand(l, Sj) for l in ops]
+
+    def model_ops(self, ops):
+        return [expand(l, IDMIN) for l in ops]
+
+    def canon(self, ops, lines):
+        Sj = start_of(ops, self.S)
+        return [canon_out(l, Sj) for l in lines]
+
+
+class RawXf:
+    """pipe-id renaming for the raw sockets: the core's pipe ids are random; raw RESPONDENT shows them
+    (first header word of a delivered survey) and routes by them.  Cases carry `pipe_id <k>` after every
+    `pipe_add` and address replies with the harness op `sendp <ctx> <aio> <k> <hdr> <body> <mode>` (header =
+    real id of pipe k, then <hdr>).  Model and judge get `send` with the canonical id k+1 instead; in the
+    implementation's output the answer to `pipe_id k` teaches real -> canonical, and the leading header
+    word of delivered messages is renamed."""
+
+    def impl_ops(self, ops):
+        return ops
+
+    def model_ops(self, ops):
+        out = []
+        for l in ops:
+            w = l.split()
+            if w and w[0] == "sendp" and len(w) == 7:
+                l = f"send {w[1]} {w[2]} {int(w[3]) + 1:08x}{'' if w[4] == '-' else w[4]} {w[5]} {w[6]}"
+            out.append(l)
+        return out
+
+    def canon(self, ops, lines):
+        canon_of = {}
+        out = []
+        for op, l in zip(ops, lines):
+            w = op.split()
+            if w and w[0] == "pipe_id" and len(w) == 2 and l.startswith("rv 0 "):
+                try:
+                    rid, k = int(l.split()[2]), int(w[1])
+                    if rid != 0:
+                        canon_of["%08x" % rid] = "%08x" % (k + 1)
+                    l = f"rv 0 {k + 1}"
+                except ValueError:
+                    pass
+            elif "done " in l and canon_of:
+                evs = l.split(" ; ")
+                for i, e in enumerate(evs):
+                    t = e.split()
+                    if len(t) == 5 and t[0] == "done" and t[2] == "0" and len(t[3]) >= 8 and t[3][:8] in canon_of:
+                        t[3] = canon_of[t[3][:8]] + t[3][8:]
+                        evs[i] = " ".join(t)
+                l = " ; ".join(evs)
+            out.append(l)
+        return out + lines[len(out):]
 
 
 # ----------------------------------------------------------------------------- generators
@@ -372,6 +437,154 @@ class RespGen(Base):
         return self.ops
 
 
+class RawGen(Base):
+    """raw SURVEYOR (`resp=False`) / raw RESPONDENT (`resp=True`)"""
+
+    def __init__(self, r, resp):
+        super().__init__(r)
+        self.resp = resp
+        self.had_empty = False
+
+    def word(self, end):
+        v = self.r.below(1 << 31)
+        return ((0x80000000 | v) if end else v).to_bytes(4, "big")
+
+    def backtrace(self, hops=None):
+        if hops is None:
+            hops = self.r.choice([0, 0, 0, 1, 2, 3])
+        return b"".join(self.word(False) for _ in range(hops)) + self.word(True)
+
+    def add_pipe(self):
+        ok = "0062" if self.resp else "0063"
+        self.ops.append(f"pipe_add {ok if self.r.chance(9, 10) else self.r.choice(['0062', '0063', '0031'])}")
+        self.ops.append(f"pipe_id {self.npipes}")
+        self.npipes += 1
+
+    def arrival(self):
+        """bytes a peer puts on the wire towards the socket under test"""
+        r = self.r
+        k = r.below(100)
+        if k < 70:
+            return (self.backtrace() + bytes.fromhex(self.body())).hex()
+        if k < 82:
+            hops = r.choice([6, 7, 8, 9, 14, 15, 16, 17])       # around the default ttl and the header capacity
+            return (self.backtrace(hops) + bytes.fromhex(self.body())).hex()
+        if k < 92:
+            return (b"".join(self.word(False) for _ in range(r.below(3))) + bytes(x & 0x7F for x in r.bytes(r.below(4)))).hex() or "-"
+        if k < 96 and not self.had_empty:
+            self.had_empty = True                                 # (once: the judge tells messages apart by body)
+            return self.backtrace().hex()
+        return "-"
+
+    def send(self):
+        r = self.r
+        a = self.aio()
+        if a is None:
+            return self.advance()
+        m = self.mode()
+        b = self.body()
+        if not self.resp:
+            k = r.below(100)
+            hdr = self.backtrace(0).hex() if k < 70 else self.backtrace().hex() if k < 88 else "-" if k < 95 else r.choice(["00", "000001"])
+            self.ops.append(f"send - {a} {hdr} {b} {m}")
+        else:
+            k = r.below(100)
+            p = r.below(max(1, self.npipes))
+            if k < 74:
+                self.ops.append(f"sendp - {a} {p} {self.backtrace().hex()} {b} {m}")
+            elif k < 79:
+                self.ops.append(f"sendp - {a} {p} - {b} {m}")                       # only the pipe id
+            elif k < 85:
+                self.ops.append(f"send - {a} {r.choice(['-', '00', '000001'])} {b} {m}")      # fewer than 4 bytes: freed by the router
+            elif k < 93:
+                self.ops.append(f"send - {a} 7ffffff0{self.backtrace().hex()} {b} {m}")        # nobody's id
+            else:
+                self.ops.append(f"sendp - {a} {r.below(4)} {self.backtrace().hex()} {b} {m}")  # possibly a pipe that never existed
+        if m != "nb":
+            self.busy_aio.add(a)
+
+    def gen(self, n):
+        r = self.r
+        self.ops.append("open respondent raw" if self.resp else "open surveyor raw")
+        if r.chance(1, 3):
+            self.ops.append(f"setopt - ttl-max int {r.range(1, 15)}")
+        for _ in range(r.choice([0, 1, 1, 2, 2])):
+            self.add_pipe()
+        while len(self.ops) < n:
+            k = r.weighted([("send", 24), ("send_done", 13 if self.npipes else 0), ("arrival", 20 if self.npipes else 0), ("recv", 17),
+                            ("pipe_add", 5 if self.npipes < 3 else 0), ("pipe_drop", 3), ("advance", 5), ("poll", 7), ("cancel", 3),
+                            ("abort", 1), ("setopt", 2), ("getopt", 1), ("close", 1)])
+            if k == "send":
+                self.send()
+            elif k == "send_done":
+                self.ops.append(f"send_done {r.below(self.npipes)} {0 if r.chance(9, 10) else r.choice([7, 19, 31])}")
+                self.busy_aio.clear()
+            elif k == "arrival":
+                p = r.below(self.npipes)
+                if r.chance(19, 20):
+                    self.ops.append(f"recv_done {p} {self.arrival()}")
+                else:
+                    self.ops.append(f"recv_done {p} !{r.choice([7, 19, 31])}")
+                self.busy_aio.clear()
+            elif k == "recv":
+                a = self.aio()
+                if a is None:
+                    self.advance(); continue
+                m = self.mode()
+                self.ops.append(f"recv - {a} {m}")
+                if m != "nb":
+                    self.busy_aio.add(a)
+            elif k == "pipe_add":
+                self.add_pipe()
+            elif k == "setopt":
+                self.ops.append(f"setopt - ttl-max int {r.choice([1, 2, 3, 4, 8, 15, 0, 16])}")
+            elif k == "getopt":
+                self.ops.append("getopt - ttl-max int")
+            elif k == "close":
+                self.ops.append("close"); break
+            else:
+                self.common(k)
+        return self.ops
+
+    def probe_send(self, a):
+        if self.resp and self.npipes:
+            self.ops.append(f"sendp - {a} {self.r.below(self.npipes)} {self.backtrace().hex()} {self.body()} nb")
+        else:
+            self.ops.append(f"send - {a} {self.backtrace(0).hex()} {self.body()} nb")
+
+    def flood(self, extra):
+        """per-pipe send queue depth: more sends than a busy pipe's queue holds, then drain"""
+        depth = 2 if self.resp else 16
+        self.ops.append("open respondent raw" if self.resp else "open surveyor raw")
+        self.add_pipe(); self.add_pipe()
+        n = depth + 1 + extra
+        for i in range(n):
+            if self.resp:
+                self.ops.append(f"sendp - {i % 16} {i % 2 if extra == 0 else 0} {self.backtrace().hex()} {self.body()} {self.r.choice(['nb', 'inf'])}")
+            else:
+                self.ops.append(f"send - {i % 16} {self.backtrace(0).hex()} {self.body()} {self.r.choice(['nb', 'inf'])}")
+            if i == depth // 2 and self.r.chance(1, 2):
+                self.ops.append("send_done 1 0")
+        self.ops.append("poll")
+        for i in range(n + 1):
+            self.ops.append(f"send_done {self.r.below(2)} 0")
+        for i in range(n):
+            self.ops.append(f"send_done {i % 2} 0")
+        self.ops += ["poll", "close"]
+        return self.ops
+
+
+RAW_BASE = 10_000_000      # own index range: the cooked case streams are what they were before raw mode was added
+
+
+def gen_raw_case(seed, tier, i):
+    r = core.Rng(seed, PROP, tier, RAW_BASE + i)
+    resp = i % 2 == 1
+    if i % 100 in (50, 51):
+        return ("xrespondent" if resp else "xsurveyor"), RawGen(r, resp).flood(r.choice([0, 1, 3]))
+    return ("xrespondent" if resp else "xsurveyor"), RawGen(r, resp).gen(r.range(8, 60))
+
+
 def gen_case(seed, tier, i):
     r = core.Rng(seed, PROP, tier, i)
     if i % 2 == 0:
@@ -382,7 +595,12 @@ def gen_case(seed, tier, i):
 
 
 def kind_of(ops):
-    return "respondent" if any(o.startswith("open respondent") for o in ops[:3]) else "surveyor"
+    for o in ops[:3]:
+        w = o.split()
+        if w and w[0] == "open" and len(w) > 1:
+            k = "respondent" if w[1] == "respondent" else "surveyor"
+            return ("x" + k) if len(w) > 2 and w[2] == "raw" else k
+    return "surveyor"
 
 
 def corpus_cases():
@@ -405,7 +623,7 @@ class Res:
         self.op_hist, self.ev_hist = {}, {}
 
 
-def run_cases(cases, exe, S, model_comp, judge_comp, scheds, timeout=900):
+def run_cases(cases, exe, xf, model_comp, judge_comp, scheds, timeout=900):
     res = Res()
     res.cases = len(cases)
     jobs = []
@@ -420,12 +638,11 @@ def run_cases(cases, exe, S, model_comp, judge_comp, scheds, timeout=900):
     env = build.env()
 
     def work(part):
-        Ss = [start_of(j[2], S) for j in part]
-        itext = core.cases_to_text([[expand(l, Sj) for l in j[2]] for j, Sj in zip(part, Ss)])
-        mcases = [[expand(l, IDMIN) for l in j[2]] for j in part]
+        itext = core.cases_to_text([xf.impl_ops(j[2]) for j in part])
+        mcases = [xf.model_ops(j[2]) for j in part]
         impl = core.run_stream([exe], itext, env=env, timeout=timeout)
         icases, partial = core.split_cases(impl.lines)
-        icases = [[canon_out(l, Sj) for l in c] for c, Sj in zip(icases, Ss)]
+        icases = [xf.canon(j[2], c) for c, j in zip(icases, part)]
         out = {"impl": impl, "icases": icases, "partial": partial}
         if model_comp:
             out["model"] = core.split_cases(core.run_stream(lean.driver_cmd(model_comp), core.cases_to_text(mcases)).lines)[0]
@@ -471,15 +688,14 @@ def run_cases(cases, exe, S, model_comp, judge_comp, scheds, timeout=900):
     return res
 
 
-def run_one(exe, S, comp, ops, judge=False, timeout=30):
-    S1 = start_of(ops, S)
-    impl = core.run_stream([exe], core.cases_to_text([[expand(l, S1) for l in ops]]), env=build.env(), timeout=timeout)
+def run_one(exe, xf, comp, ops, judge=False, timeout=30):
+    impl = core.run_stream([exe], core.cases_to_text([xf.impl_ops(ops)]), env=build.env(), timeout=timeout)
     ic = core.split_cases(impl.lines)
-    il = [canon_out(l, S1) for l in (ic[0][0] if ic[0] else ic[1])]
+    il = xf.canon(ops, ic[0][0] if ic[0] else ic[1])
     complete = bool(ic[0])
     if comp is None:
         return impl, il, None, complete
-    mops = [expand(l, IDMIN) for l in ops]
+    mops = xf.model_ops(ops)
     if judge:
         jl = [f"{op} => {o}" for op, o in zip(mops, il)] + ["reset"]
         other = core.split_cases(core.run_stream(lean.driver_cmd(comp), "\n".join(jl) + "\n").lines)[0]
@@ -488,9 +704,9 @@ def run_one(exe, S, comp, ops, judge=False, timeout=30):
     return impl, il, (other[0] if other else []), complete
 
 
-def minimise(exe, S, comp, ops, judge, budget_s=40):
+def minimise(exe, xf, comp, ops, judge, budget_s=40):
     def fails(o):
-        impl, il, other, complete = run_one(exe, S, comp, o, judge)
+        impl, il, other, complete = run_one(exe, xf, comp, o, judge)
         if impl.rc != 0 or not complete:
             return True
         if other is None:
@@ -528,12 +744,14 @@ def run(tier, seed, replay=None):
             ops = ops[1:]
         allc = [(kind_of(ops), ops)]
     else:
-        allc = corpus_cases() + [gen_case(seed, tier, i) for i in range(n)]
+        nraw = 600 if tier == "quick" else 12000
+        allc = corpus_cases() + [gen_case(seed, tier, i) for i in range(n)] + [gen_raw_case(seed, tier, i) for i in range(nraw)]
     results = {}
-    for kind in ("surveyor", "respondent"):
+    xfs = {"surveyor": CookedXf(S), "respondent": CookedXf(S), "xsurveyor": RawXf(), "xrespondent": RawXf()}
+    for kind in KINDS:
         cs = [ops for k, ops in allc if k == kind]
         if cs:
-            results[kind] = (cs, run_cases(cs, exe, S, f"{kind}-model" if st.driver_ok else None,
+            results[kind] = (cs, run_cases(cs, exe, xfs[kind], f"{kind}-model" if st.driver_ok else None,
                                            f"{kind}-judge" if st.driver_ok else None, scheds))
     found_input = False
     tot = {"cases": 0, "runs": 0, "ops": 0, "judge": 0, "model": 0, "crash": 0}
@@ -544,7 +762,7 @@ def run(tier, seed, replay=None):
         for k, x in res.op_hist.items(): op_hist[k] = op_hist.get(k, 0) + x
         for k, x in res.ev_hist.items(): ev_hist[k] = ev_hist.get(k, 0) + x
         for c in res.crashes[:2]:
-            ops = minimise(exe, S, None, c["ops"], False)
+            ops = minimise(exe, xfs[kind], None, c["ops"], False)
             v.violation(f"crash-{kind}-{c['case']}", {"kind": "crash / sanitizer report / deadlock of the implementation under the simulated platform",
                         "ops": ops, "rc": c["rc"], "last_output": c["last"], "stderr": c["stderr"]})
             found_input = True
@@ -554,9 +772,10 @@ def run(tier, seed, replay=None):
             if key in seen or len(seen) >= 3:
                 continue
             seen.add(key)
-            ops = minimise(exe, S, f"{kind}-judge", jv["ops"], True)
-            impl, il, verdicts, _ = run_one(exe, S, f"{kind}-judge", ops, True)
-            v.violation(f"judge-{kind}-{jv['case']}", {"kind": "implementation trace violates the C07 trace predicate (Spec/Survey.lean)",
+            ops = minimise(exe, xfs[kind], f"{kind}-judge", jv["ops"], True)
+            impl, il, verdicts, _ = run_one(exe, xfs[kind], f"{kind}-judge", ops, True)
+            v.violation(f"judge-{kind}-{jv['case']}", {"kind": "implementation trace violates the C07 trace predicate "
+                        f"({'Spec/RawSurvey.lean' if kind.startswith('x') else 'Spec/Survey.lean'})",
                         "clause": jv["clause"], "ops": ops, "impl": il, "judge": verdicts})
             found_input = True
     core.log(PROP, f"id starts {S['aio']:08x}/{S['nb']:08x}; cases {tot['cases']} runs {tot['runs']} ops {tot['ops']}; judge violations {tot['judge']}, "
@@ -565,8 +784,8 @@ def run(tier, seed, replay=None):
         for kind, (cs, res) in results.items():
             if res.model_mismatch:
                 mm = res.model_mismatch[0]
-                ops = minimise(exe, S, f"{kind}-model", mm["ops"], False)
-                impl, il, ml, _ = run_one(exe, S, f"{kind}-model", ops)
+                ops = minimise(exe, xfs[kind], f"{kind}-model", mm["ops"], False)
+                impl, il, ml, _ = run_one(exe, xfs[kind], f"{kind}-model", ops)
                 v.violation(f"corr-{kind}", {"kind": "correspondence broken: implementation differs from the Lean model the C07 theorems are about "
                             "(no trace violating the property predicate was found)", "correspondence": f"{kind}-model vs s_proto",
                             "ops": ops, "impl": il, "model": ml, "mismatching_runs": len(res.model_mismatch)}, no_input=True)
@@ -577,15 +796,18 @@ def run(tier, seed, replay=None):
     cov = {"obligations": len(st.theorems), "discharged": len(st.discharged),
            "checker_cmd": "lake build NngModel.Props.C07 && lake env lean <#print axioms for each theorem>",
            "trusted_base": ["Lean 4.33.0 kernel", "axioms: " + ", ".join(sorted({a for x in st.axioms.values() if x for a in x})),
-                            "vlib/extract.py + extract_c07.py (constants)", "harness/simplat.c (scheduler, virtual clock), mocktran.c (transport contract), s_proto.c",
-                            "vlib/props/c07.py (diff, renaming of survey ids to canonical ones, canonical event order within a quiescent batch)", "gcc ASan/UBSan"],
+                            "vlib/extract.py + extract_c07.py + extract_c07x.py (constants, shape anchors)", "harness/simplat.c (scheduler, virtual clock), mocktran.c (transport contract), s_proto.c",
+                            "vlib/props/c07.py (diff, renaming of survey ids and — raw mode — pipe ids to canonical ones, canonical event order within a quiescent batch)", "gcc ASan/UBSan"],
            "theorems": st.discharged, "axioms": st.axioms, "broken": st.broken,
            "evaluations": tot["runs"], "distinct_nontrivial": len({tuple(o) for o in allops if len(o) > 4}),
            "rule": "event histories for one SURVEYOR or RESPONDENT socket (8-60 events; surveyor: surveys and receives in all modes on the socket and "
                    "1-3 contexts, responses with current/stale/foreign/future/unknown/high-bit-less/short ids and duplicates, arrivals 1 ms before/after "
                    "the survey deadline, survey-time changes, cancel/abort, pipe add/drop, context open/close, poll, close, plus receive-buffer floods; "
                    "respondent: surveys with 1-16 backtrace hops, malformed ones, ttl changes, receives and sends in all modes, transport completions, "
-                   "pipe loss) from splitmix64(seed,C07,tier,i), each run under "
+                   "pipe loss; raw SURVEYOR / raw RESPONDENT (own index range): sends with id / backtrace / empty / short headers resp. headers naming a "
+                   "live, closed, never-existing or nobody's pipe, arrivals with 0-17 hop words, truncated ones, ttl changes, receives in all modes, "
+                   "transport completions and failures, pipe add/drop, cancel/abort, poll-then-nonblocking probes, send-queue floods around depth 16 / 2) "
+                   "from splitmix64(seed,C07,tier,i), each run under "
                    f"{len(scheds)} schedule seeds; distinct = distinct op lists longer than 4",
            "schedules_per_case": len(scheds), "ops": tot["ops"], "op_histogram": op_hist, "event_histogram": ev_hist,
            "samples": [allops[0][:40], allops[-1][:40]], "judge_violations": tot["judge"], "model_mismatches": tot["model"], "crashes": tot["crash"],
@@ -596,6 +818,8 @@ def run(tier, seed, replay=None):
                          "virtual time never lands exactly on a deadline (the expiry thread would spin); the models do cover that instant",
                          "bodies are pairwise distinct within a case except for deliberate duplicates, so the judges can identify messages by content",
                          "the random start of the survey id map is pinned by re-seeding nni_random before the first survey of a case",
+                         "raw mode: the core's random pipe ids are renamed to index+1 (learnt from `pipe_id` right after `pipe_add`); a header word written "
+                         "literally in a case (7ffffff0) is nobody's id",
                          "respondent: a zero-timeout send that gives up (NNG_EAGAIN/NNG_ETIMEDOUT) is mirrored by the model but not judged "
                          "(F8 is an open finding of C15: corpus/C15/f8-respondent-nonblocking-send.txt)"],
                         time.time() - t0, len(v.violations))
